@@ -21,31 +21,31 @@ Open Scope N_scope.
 
 (* For all well-formed operation sequences from every well-formed restart state the
    faithful model runs without error and ALL its views equal the logical log's. *)
-Theorem logview_refines : forall rlon mi mt ents c limit ops,
+Theorem logview_refines : forall skip rlon mi mt ents c limit ops,
   wf_init mi mt ents c = true ->
   wf_ops limit (sp_init mi mt ents c) ops = true ->
-  exists w', run (w_init_rl rlon mi mt ents c limit) ops = Ok w' /\
+  exists w', run (w_init_opt skip rlon mi mt ents c limit) ops = Ok w' /\
              views_eq w' (sp_run limit (sp_init mi mt ents c) ops).
 Proof. exact logview_refines_proved. Qed.
 Print Assumptions logview_refines.
 
 (* None of the panics / error returns of inmemory.go, logentry.go, the log part of
    peer.go and logreader.go is reachable from well-formed operation sequences. *)
-Theorem err_unreachable_under_wf : forall rlon mi mt ents c limit ops,
+Theorem err_unreachable_under_wf : forall skip rlon mi mt ents c limit ops,
   wf_init mi mt ents c = true ->
   wf_ops limit (sp_init mi mt ents c) ops = true ->
-  (forall t, run (w_init_rl rlon mi mt ents c limit) ops <> Panic t) /\
-  (forall e, run (w_init_rl rlon mi mt ents c limit) ops <> Fail e).
+  (forall t, run (w_init_opt skip rlon mi mt ents c limit) ops <> Panic t) /\
+  (forall e, run (w_init_opt skip rlon mi mt ents c limit) ops <> Fail e).
 Proof. exact err_unreachable_under_wf_proved. Qed.
 Print Assumptions err_unreachable_under_wf.
 
 (* Every index that counts as saved holds, in the persistent store, exactly the
    current entry of the logical log: an entry that was truncated and re-appended is
    persisted again before it is considered saved. *)
-Theorem reappended_entry_saved_again : forall rlon mi mt ents c limit ops w',
+Theorem reappended_entry_saved_again : forall skip rlon mi mt ents c limit ops w',
   wf_init mi mt ents c = true ->
   wf_ops limit (sp_init mi mt ents c) ops = true ->
-  run (w_init_rl rlon mi mt ents c limit) ops = Ok w' ->
+  run (w_init_opt skip rlon mi mt ents c limit) ops = Ok w' ->
   let sp' := sp_run limit (sp_init mi mt ents c) ops in
   forall i, sp_mi sp' < i -> i <= im_saved (el_im (w_el w')) ->
     exists e, st_get (w_st w') i = Some e /\ sp_get sp' i = Some e /\ e_index e = i.
@@ -56,10 +56,10 @@ Print Assumptions reappended_entry_saved_again.
    entry it hands out for apply is the committed logical entry and is either already
    saved or handed out for persistence in the same update, and a FastApply update
    applies saved entries only. *)
-Theorem apply_only_committed_and_handed_to_persist : forall rlon mi mt ents c limit ops w',
+Theorem apply_only_committed_and_handed_to_persist : forall skip rlon mi mt ents c limit ops w',
   wf_init mi mt ents c = true ->
   wf_ops limit (sp_init mi mt ents c) ops = true ->
-  run (w_init_rl rlon mi mt ents c limit) ops = Ok w' ->
+  run (w_init_opt skip rlon mi mt ents c limit) ops = Ok w' ->
   let sp' := sp_run limit (sp_init mi mt ents c) ops in
   forall more la, exists ud, get_update w' more la = Ok ud /\
     (forall e, In e (ud_apply ud) ->
@@ -72,10 +72,10 @@ Print Assumptions apply_only_committed_and_handed_to_persist.
 (* With a real rate limiter under inMemory ([rlon]: MaxInMemLogSize set; the theorems
    above hold for both settings) what it has recorded is, in every reachable state,
    exactly pb.GetEntrySliceInMemSize of the in-memory entries. *)
-Theorem rate_limiter_accounting_exact : forall rlon mi mt ents c limit ops w',
+Theorem rate_limiter_accounting_exact : forall skip rlon mi mt ents c limit ops w',
   wf_init mi mt ents c = true ->
   wf_ops limit (sp_init mi mt ents c) ops = true ->
-  run (w_init_rl rlon mi mt ents c limit) ops = Ok w' ->
+  run (w_init_opt skip rlon mi mt ents c limit) ops = Ok w' ->
   forall n, im_rl (el_im (w_el w')) = Some n -> n = isize (im_ents (el_im (w_el w'))) mod 2 ^ 64.
 Proof. exact rate_limiter_accounting_exact_proved. Qed.
 Print Assumptions rate_limiter_accounting_exact.
